@@ -91,6 +91,49 @@ DESC.update({
  "C20-r2b": ("badger opened with CompactL0OnClose", "backup, restart, delete dataset, restart, backup: the appended dump lacks the tombstones"),
 })
 
+DESC.update({
+ "C01-r3a": ("point-in-time lookup seeks past a deleted dataset and then skips the record it landed on", "same id in A and B, A created earlier and deleted (not collected), exactly one version in B"),
+ "C01-r3b": ("a refused batch discards the store-wide pending id transaction", "refused batch on one dataset overlapping a writer of new ids on another"),
+ "C02-r3a": ("read-side 'already at the end' shortcut that ExecuteTransaction never refreshes", "batch, then a transaction on the same dataset, then a reader resuming with its end token"),
+ "C02-r3b": ("in-batch 'version written last' map kept on the dataset across batches", "a batch/transaction that fails after some entities were processed, then the same entities re-sent"),
+ "C03-r3a": ("continuation page seeks straight to the continuation key (superseded keys no longer marked)", "outgoing query with a limit on an entity with two versions, page border inside the newest version's relations"),
+ "C03-r3b": ("POST /query decodes all continuation tokens into one shared struct", "continuation request with more than one token (several starting entities, small limit)"),
+ "C04-r3a": ("Store.moveValue split into delete + store (two commits)", "kill between the two commits of a dataset rename"),
+ "C04-r3b": ("id transaction committed only when the batch itself assigned identifiers", "refused batch, acknowledged retry of its entities, kill"),
+ "C05-r3a": ("as C01-r3b", "refused batch next to a writer of new ids"),
+ "C05-r3b": ("CreateDataset fast path without re-check under the lock", "two concurrent creates of one name, write through the loser's object"),
+ "C06-r3a": ("point-in-time lookup skips the version committed exactly at the instant (>=)", "lookup pinned exactly to a commit stamp"),
+ "C06-r3b": ("current-state relation query passes At=0 ('now') into its continuations", "paged current-state query, a write between page fetches"),
+ "C07-r3a": ("deleting a proxy/virtual dataset does not add its id to the deleted set", "proxy dataset written locally (transaction / job sink), then deleted"),
+ "C07-r3b": ("GC batching loop drops the key that arrives when a batch is full", "deleted dataset with more than 10000 keys in one scan"),
+ "C08-r3a": ("StoreEntities releases the write lock before the commit", "two concurrent source writers and a run reading between their commits"),
+ "C08-r3b": ("parallel transform results collected in completion order (as C10-r2a)", "Parallelism >= 2, two versions of an entity in different chunks (C10's subject; caught by C10)"),
+ "C09-r3a": ("CompleteFullSync pages by 1000 and counts only live entities for the last-page test", "more than 1000 entities, a tombstone on an early page, unseen entities later"),
+ "C09-r3b": ("a failed fullsync job run calls sink.endFullSync on the error path", "fullsync job whose source fails midway"),
+ "C10-r3a": ("transform workers' result slots kept across batches of a run", "Parallelism > 1, a shorter last batch, a newer version of a stale entity in it"),
+ "C10-r3b": ("HttpTransform client retries on 5xx", "an HTTP transform endpoint that fails once after reading a batch"),
+ "C11-r3a": ("borrowTicket logs the ticket holders through getRunningJobs while holding the same mutex", "fullsync pool exhausted by another job id"),
+ "C11-r3b": ("HttpDatasetSource request context no longer derives from the run's context", "kill while the remote has started answering and stalls"),
+ "C12-r3a": ("compaction worker caches the *Dataset per name", "same worker, dataset deleted and re-created, writer inside the flush window"),
+ "C12-r3b": ("compaction skips an entity it cannot evaluate instead of aborting", "a duplicate version whose reference ids were never asserted (only reachable by raw key injection; outside the write paths my checks drive)"),
+ "C13-r3a": ("assertIDForURI: unlocked pre-check, pending id transaction consulted only if one exists", "two writers of one new identifier, the first commits before the second takes the lock"),
+ "C13-r3b": ("shared read-only snapshot of the prefix map + JSON-LD handler writing its aliases into it", "a JSON-LD read followed by any other context read"),
+ "C14-r3a": ("a namespace prefix assigned by a read (lookup by full URI) is kept in memory only", "lookup as first mention of a namespace, write using it, restart"),
+ "C14-r3b": ("ServiceCore.Init returns before loadAcls when clients.json is missing", "ACL set, no client ever registered, restart"),
+ "C15-r3a": ("nesting-depth guard that leaks one level per composite array element", "an array with 128 or more nested entities or sub-arrays"),
+ "C15-r3b": ("declared expansions get a trailing '/' appended", "a context whose expansion does not end in / or # (URN, common stem)"),
+ "C16-r3a": ("needed action taken from the route's declared scope", "DELETE /provider/login/:name and POST /query are registered with the read scope"),
+ "C16-r3b": ("validated tokens cached by raw string", "the same token presented while valid and again after expiry"),
+ "C17-r3a": ("bisection hands a presumed-bad last entity to the handlers without sending it to the sink alone", "a refused 2-entity call whose second entity is acceptable alone (transient / size-limited sink)"),
+ "C17-r3b": ("failedInRun guard removed (recursionDepth alone)", "a refused one-entity page followed by an accepted page"),
+ "C18-r3a": ("one query time for all dependencies of a read", "two dependencies, a write re-pointing the later one's link while the earlier one is being processed"),
+ "C18-r3b": ("dependency dedup key ignores the join direction", "the same predicate tracked in both directions between two datasets"),
+ "C19-r3a": ("public-namespace write-back returns at the first meta-entity without any", "one batch into core.Dataset with two meta-entities, the second sets namespaces"),
+ "C19-r3b": ("dataset record serialised before the create-config is applied", "proxy/virtual dataset without public namespaces, restart"),
+ "C20-r3a": ("incremental dump from a hand-built badger stream without SinceTs", "write, backup, overwrite an existing key, backup in the same process, restore"),
+ "C20-r3b": ("cursor set to last dumped version + 1", "the first commit after a run is a single-transaction operation (delete dataset, new namespace)"),
+})
+
 rows = []
 for d in sorted(glob.glob('/verif/seeded/*/meta.json')):
     m = json.load(open(d))
@@ -98,8 +141,11 @@ for d in sorted(glob.glob('/verif/seeded/*/meta.json')):
     what, needs = DESC.get(k, ("", ""))
     conf = "yes" if m.get('confirmed') else "no (suite fails)"
     first = "caught" if m.get('caught_before_strengthening', m.get('caught_by_quick')) else "MISSED"
-    if 'r2' in k and 'baseline_verif_commit' not in m:
-        first = "?"
+    if ('r2' in k or 'r3' in k):
+        if 'baseline_verif_commit' not in m:
+            first = "?"
+        else:
+            first = ("caught" if m.get('baseline_check_quick_exit') == 1 else "MISSED") + " (" + m['baseline_verif_commit'] + ")"
     if k in ("C18-a", "C18-b"):
         first = "check not built yet"
     final = "caught" if m.get('final_caught_by_quick') else ("missed" if 'final_caught_by_quick' in m else "?")
